@@ -13,7 +13,7 @@ import (
 func init() {
 	register("C18", &ruleSet{
 		run:    runC18,
-		floors: map[string]int{"O1": 6, "O2": 3, "O3": 4, "O4": 1, "O5": 2, "O6": 2},
+		floors: map[string]int{"O1": 6, "O2": 3, "O3": 4, "O4": 1, "O5": 2, "O6": 4},
 		explain: "Decides the structural clauses of the measurement primitives (all numeric clauses - mean during warm-up, hull bounds, variance >= 0, percentile accuracy - are " +
 			"not applicable to a static argument): (O1) Reset is complete: every field that Add/Update can write, followed through owned sub-measurements, is re-initialised by " +
 			"Reset to the value the constructor gives it (a zero constant, the immutable 'initial' field the constructor set from the same argument, or the sub-measurement's own " +
